@@ -81,6 +81,7 @@ type VC struct {
 	objModCache []objMod
 	localRefs map[string][]localRef
 	rebinding bool
+	ownNames  map[string]bool
 	inlStack  []*inlFrame
 	inlSeq    int
 	inlPrefix string
